@@ -144,3 +144,42 @@ def test_driver_sees_a_leak():
         c17.G.bomb = orig
     assert len(c17.G.STACK) == 2
     assert c17.run((("probe",),)).failure is None
+
+
+def test_persistent_tape_menu_and_reentry():
+    # T0 is offered while inactive; while it is active a fresh tape takes its place
+    syms = ("lazy", "T0")
+    assert ("with", "T0") in ref.menu(1, syms, 3, (0,), ("lazy",))
+    ev = ref.menu(2, syms, 3, (0,), ("lazy", "T0"))
+    assert ("with", "T0") not in ev and ("with", "tape") in ev and ("deco", "tape") in ev
+    # the reference treats T0 like any tape: layered over, and remembering, the CURRENT top
+    s, _ = ref.enter(ref.BASE, "T0")
+    assert s[-1] == ("prio", (("tape", "eager"), "eager_base", "normalize_base", "reflect"))
+    s, _ = ref.enter(ref.enter(ref.BASE, "lazy")[0], "T0")
+    assert s[-1] == ("prio", (("tape", "lazy"), "lazy_base", "reflect")) and ref.kind(s[-1]) == "lazy"
+
+    from fv.props import c17
+
+    c17._setup(0)
+    h = (("with", "T0"), ("probe",), ("exit",), ("with", "lazy"), ("deco", "T0"), ("probe",))
+    x = c17.run(h, record=True)
+    assert x.failure is None, x.failure.message
+    assert x.obs[1].startswith("probe:Tensor,Tensor") and x.obs[5].startswith("probe:Binary,Reduce")
+    assert x.trace[4][0] == "reflect;eager;lazy;P[T(lazy),lazy_base,reflect]"
+    # a tape that keeps the interpretation of its first entry is seen
+    orig = c17.G.AdjointTape.__enter__
+
+    def sticky(self):
+        if self._old_interpretation is None:
+            self._old_interpretation = c17.G.get_interpretation()
+        self.tape = []
+        return c17.G.fi.Interpretation.__enter__(self)
+
+    try:
+        c17.G.AdjointTape.__enter__ = sticky
+        x = c17.run(h)
+        assert x.failure is not None and x.failure.site == "AdjointTape.__enter__" and x.failure.what == "tape-old"
+    finally:
+        c17.G.AdjointTape.__enter__ = orig
+    assert c17.run(h).failure is None
+    assert len(c17.reentry_histories("quick")) == 11 * 2 * 111 * 2
